@@ -320,6 +320,10 @@ func BLSInvalidSignature() Signature {
 // Decoding assumes a bytes big endian format.
 // It checks the scalar is non-zero and is less than the group order.
 func (a *blsBLS12381Algo) decodePrivateKey(privateKeyBytes []byte) (PrivateKey, error) {
+	if len(privateKeyBytes) != PrKeyLenBLSBLS12381 {
+		return nil, invalidInputsErrorf("input length must be %d, got %d",
+			PrKeyLenBLSBLS12381, len(privateKeyBytes))
+	}
 	sk := newPrKeyBLSBLS12381(nil)
 
 	err := readScalarFrStar(&sk.scalar, privateKeyBytes)
